@@ -533,6 +533,10 @@ C16_TEXTS = [
     ("own-value-used-twice-around-a-comparison-in-another-unit", 'lim float = 1 m\nsz float = {?w0} cm\n  !condition ("{?} < {?lim} && {?} < 5")', ("and", ("lt", w0, 100), ("lt", w0, 5)), [("sz", w0)]),
     ("own-value-used-twice-around-a-comparison-in-another-unit-2", 'lim float = 1 m\nsz float = {?w0} cm\n  !condition ("{?} < {?lim} && {?} > 5")', ("and", ("lt", w0, 100), ("gt", w0, 5)), [("sz", w0)]),
     ("another-node-used-twice-around-a-comparison-in-another-unit", 'lim float = {?w1} m\nsz float = {?w0} cm\n  !condition ("{?lim} > {?} && {?lim} < 3")', ("and", ("gt", ("*", w1, 100), w0), ("lt", w1, 3)), [("sz", w0)]),
+    # the empty text is a text like any other: as an option, as a value, as a modification
+    ("empty-text-among-the-options-value-outside", 'nm str = abc\n  !options ["","x"]', False, []),
+    ("empty-text-among-the-option-lines-value-outside", 'nm str = abc\n  = ""\n  = x', False, []),
+    ("empty-text-among-the-options-value-empty", 'nm str = ""\n  !options ["","x"]\nn2 str = x\n  = ""\n  = x\nn2 = ""', True, [("nm", ""), ("n2", "")]),
     # options and operands of integer nodes written in another unit are compared as the numbers they are (1.6 m is not 2 m)
     ("integer-option-in-another-unit-that-is-no-whole-number", "height int = {?v0} m\n  = 1 m\n  = 160 cm", ("eq", v0, 1), [("height", v0)]),
     ("integer-compared-with-an-integer-in-another-unit", 'limit int = 2 m\nisz int = {?v0} cm\n  !condition ("{?} >= {?limit}")', ("ge", v0, 200), [("isz", v0)]),
@@ -597,6 +601,10 @@ C18_TEXTS = [
     ("definedness", 'y bool = ("!{?a} && {?f}")\nz bool = ("!{?nope} || {?g}")', False, [("y", bf), ("z", bg)], None),
     ("string-comparison", 'y bool = ("{?name} == Tina && {?f}")\nz bool = ("{?name} == Tom || {?g}")', False, [("y", bf), ("z", bg)], None),
     ("case-condition-with-units", '@case ("{?a} > {?b}")\n  x int = 1\n@else\n  x int = 2\n@end', False, [("x", ("+", 2, ("*", -1, ("gt", ("*", wa, 100), wb))))], None),
+    # template references with several slice parts: an index 0 is an index like any other
+    ("template-slices-starting-with-index-zero", 'widths float[2,2] = [[1,2],[3,4]]\ncube int[2,2,2] = [[[1,2],[3,4]],[[5,6],[7,8]]]\nt str = ("{{?widths}[0,1]:.2e}")\nu str = ("{{?cube}[0,0]}")\n'
+     'v str = ("{{?cube}[1,0]}")\nw str = ("{{?widths}[0]}")\nx str = ("{{?cube}[0,1,1]}")', False,
+     [("t", "2.00e+00"), ("u", "[1, 2]"), ("v", "[5, 6]"), ("w", "[1.0, 2.0]"), ("x", "4")], None),
     # trigonometric functions take the ANGLE their argument denotes: degrees, turns and custom angular units are converted to radians
     ("trigonometry-of-angles-in-other-units", '$unit turn = 360 deg\nang float = 30 deg\ns1 float = ("sin(30 deg)")\nc1 float = ("cos(60 deg)")\nt1 float = ("tan(45 deg)")\ns2 float = ("sin({?ang})")\n'
      's3 float = ("sin(0.25 [turn])")\ns4 float = ("sin(1.5707963267948966 rad) + cos(0)")\ns5 float = ("2 m * sin(90 deg)") m', False,
@@ -812,6 +820,10 @@ C14_TEXTS = [
     ("array-in-another-unit", "arr float[2] = [1,2] cm\narr = [3,4] m\nia int[2] = [1,2] m\nia = [3,4] km\nsrc float[2] = [1,2] m\ndst float[2] = [0,0] cm\ndst = {?src}", False, [], [("arr", "cm"), ("ia", "m"), ("dst", "cm")]),
     ("array-in-a-unit-of-another-dimension-refused", "arr float[2] = [1,2] cm\narr = [3,4] s", True, [], []),
     ("integer-in-another-unit-stays-an-integer", "k2 int = 1 m\nk2 = 3 km\nk int = 1 m\nk = {?v0} km", False, [("k2", 3000), ("k", ("*", v0, 1000))], [("k2", "m"), ("k", "m")]),
+    # an assignment right after nested case blocks that its indentation closes (no @end) takes effect, whatever the conditions were
+    ("after-nested-clauses-closed-by-indentation", '@case ("{?f0}")\n  @case true\n    cnt = 1\nlen = {?w0} m\n@case ("{?f0}")\n  @case false\n    @case true\n      cnt = 2\nmass = 2 g', False,
+     [("len", ("*", w0, 100)), ("mass", 0.002)], [("len", "cm"), ("mass", "kg")]),
+    ("after-nested-clauses-closed-by-indentation-other-type-refused", '@case ("{?f0}")\n  @case true\n    cnt = 1\nlen int = 3', True, [], []),
     # assignments inside case blocks address the same node, however many blocks came before (the internal block number grows past one digit)
     ("inside-the-thirteenth-clause", "@case false\n  cnt = 1\n@else\n  cnt = 2\n@end\n" * 4 + "@case true\n  len = {?w0} m\n  mass float = 5 g\n@end", False,
      [("len", ("*", w0, 100)), ("cnt", 2), ("mass", 0.005)], [("len", "cm"), ("mass", "kg")]),
@@ -1239,6 +1251,34 @@ for _cls, (_with, _without) in EXPORTS_UNITS.items():
         c.ensures("result == want", "same-text-as-a-fresh-exporter-with-this-option")
         c.no_raise()
         c.modifies("self.text")
+
+
+# ---- C19: an export reads the environment: the typed values of its nodes (value, unit, declared width and sign) are the same afterwards, so a
+#      second export through another back-end sees what the first one saw ---------------------------------------------------------------------
+@spec
+def typed_view(env):
+    return [(n.name, n.keyword, None if n.value is None else (n.value.value, getattr(n.value, 'unit', None), getattr(n.value, 'precision', None), getattr(n.value, 'unsigned', None)))
+            for n in env.nodes]
+
+
+BACKENDS = ["dip/config/export_rust.py::ExportConfigRust", "dip/config/export_c.py::ExportConfigC", "dip/config/export_cpp.py::ExportConfigCPP", "dip/config/export_fortran.py::ExportConfigFortran",
+            "dip/config/export_bash.py::ExportConfigBash", "dip/config/export_json.py::ExportConfigJSON", "dip/config/export.py::ExportConfig"]
+
+
+for _cls in BACKENDS:
+    @contract(_cls + ".parse", ["C19"], name=_cls.split("::")[1] + ".parse[environment-unchanged]")
+    def _(c, cls=_cls):
+        c.bound = "one environment with every float and integer width, signed and unsigned, scalars and arrays, a text and a boolean"
+
+        def pre(b):
+            d0 = b.new(DIPC, name="t")
+            b.call(b.getattr(d0, "add_string"), 'density float128 = 1.5 g/cm3\nwide float128[2] = [0.5,0.25]\nf32 float32 = 2.5\nf64 float = 3.5 m\nu16 uint16 = 200\ni16 int16 = -3\nu64 uint64[2] = [1,2]\n'
+                   'name str = "abc"\nflag bool = true')
+            env = b.call(b.getattr(d0, "parse"))
+            return dict(args=[b.new(cls, env)], env=dict(env=env))
+        c.scenario("all-widths", pre)
+        c.ensures("typed_view(env) == old(typed_view(env))", "typed-values-of-the-environment-as-before")
+        c.no_raise()
 
 
 # ---- C19: save() leaves exactly the exported text in the file, whatever was at that path before ------------------------------------------------
